@@ -75,6 +75,7 @@ type c11Repo struct {
 	packOf map[string]string  // slot -> pack base path (objects/pack/pack-x)
 	offOf  map[string]int64
 	idxOf  map[string]*idxfile.MemoryIndex
+	filler map[string]bool // ids of stored objects without a slot (the deep delta chain's history)
 }
 
 func gitOut(dir string, stdin []byte, args ...string) (string, error) {
@@ -99,15 +100,107 @@ func buildC11Repo(f objFormat) (*c11Repo, error) {
 		r.slot[slot] = id
 		return err
 	}
+	// a delta chain deeper than 50 links (git's default pack.depth; git itself reads chains up to 4095):
+	// 70 revisions of one file in a scratch history, repacked by git with --depth=200; the resulting pack
+	// is copied in as an extra pack.  p1a / p1b / p1c are the first, middle and last revision's blob, every
+	// other object of that pack is a filler without a slot.
 	a := lines("pack one", 200)
-	b := a + lines("pack one more", 20)
-	c := b + lines("pack one even more", 20)
+	version := func(i int) string {
+		ls := strings.Split(strings.TrimSuffix(a, "\n"), "\n")
+		for j := 0; j < i; j++ {
+			ls[(3*j)%len(ls)] = fmt.Sprintf("pack one line changed in revision %d", j)
+		}
+		return strings.Join(ls, "\n") + "\n"
+	}
+	const revs = 180
+	b := version(revs / 2)
+	c := version(revs - 1)
 	big := c + lines("a large blob", 4000) // ~ 250 KiB
+	a = version(0)
+	chainDir := gitcli.TempDir("c11chain")
+	defer os.RemoveAll(chainDir)
+	if _, se, err := gitcli.Run(chainDir, nil, "init", "-q", "--object-format="+f.name, "."); err != nil {
+		return nil, fmt.Errorf("chain init: %v %s", err, se)
+	}
+	var fi bytes.Buffer
+	for i := 0; i < revs; i++ {
+		v := version(i)
+		fmt.Fprintf(&fi, "blob\nmark :%d\ndata %d\n%s\n", i+1, len(v), v)
+		fmt.Fprintf(&fi, "commit refs/heads/master\nmark :%d\ncommitter C <c@example.com> %d +0000\ndata 2\nc\n", 1000+i, 1000000000+i)
+		if i > 0 {
+			fmt.Fprintf(&fi, "from :%d\n", 1000+i-1)
+		}
+		fmt.Fprintf(&fi, "M 100644 :%d f.txt\n\n", i+1)
+	}
+	if _, se, err := gitcli.Run(chainDir, fi.Bytes(), "fast-import", "--quiet"); err != nil {
+		return nil, fmt.Errorf("chain fast-import: %v %s", err, se)
+	}
+	if _, se, err := gitcli.Run(chainDir, nil, "repack", "-q", "-a", "-d", "-f", "--depth=200", "--window=200"); err != nil {
+		return nil, fmt.Errorf("chain repack: %v %s", err, se)
+	}
+	chainPacks, _ := filepath.Glob(filepath.Join(chainDir, ".git", "objects", "pack", "pack-*.pack"))
+	if len(chainPacks) != 1 {
+		return nil, fmt.Errorf("chain repository has %d packs", len(chainPacks))
+	}
+	chainBase := strings.TrimSuffix(filepath.Base(chainPacks[0]), ".pack")
+	for _, ext := range []string{".pack", ".idx"} {
+		data, err := os.ReadFile(filepath.Join(chainDir, ".git", "objects", "pack", chainBase+ext))
+		if err != nil {
+			return nil, err
+		}
+		if err := os.WriteFile(filepath.Join(r.dir, "objects", "pack", chainBase+ext), data, 0o444); err != nil {
+			return nil, err
+		}
+	}
+	vpOut, _, err0 := gitcli.Run(chainDir, nil, "verify-pack", "-v", filepath.Join(chainDir, ".git", "objects", "pack", chainBase+".idx"))
+	if err0 != nil {
+		return nil, fmt.Errorf("chain verify-pack: %v", err0)
+	}
+	var fillers []string
+	deep := 0
+	for _, ln := range strings.Split(vpOut, "\n") {
+		var n, cnt int
+		if _, err := fmt.Sscanf(ln, "chain length = %d: %d object", &n, &cnt); err == nil {
+			if n > deep {
+				deep = n
+			}
+			continue
+		}
+		fs := strings.Fields(ln)
+		if len(fs) >= 5 && len(fs[0]) == f.size*2 {
+			fillers = append(fillers, fs[0])
+		}
+	}
+	if deep <= 50 {
+		return nil, fmt.Errorf("fixture delta chain is only %d deep", deep)
+	}
 	contents := map[string]string{"p1a": a, "p1b": b, "p1c": c, "big": big, "both": lines("both", 30), "loose": lines("loose", 10)}
-	for _, s := range []string{"p1a", "p1b", "p1c", "big", "both", "loose"} {
+	for _, s := range []string{"p1a", "p1b", "p1c"} {
+		// hashed only: the objects themselves are in the chain pack
+		id, err := gitOut(r.dir, []byte(contents[s]), "hash-object", "--stdin")
+		if err != nil {
+			return nil, err
+		}
+		r.slot[s] = id
+		r.packOf[s] = filepath.Join("objects", "pack", chainBase)
+	}
+	for _, s := range []string{"big", "both", "loose"} {
 		if err := blob(r.dir, s, contents[s]); err != nil {
 			return nil, err
 		}
+	}
+	{
+		isSlot := map[string]bool{r.slot["p1a"]: true, r.slot["p1b"]: true, r.slot["p1c"]: true}
+		var rest []string
+		for _, f := range fillers {
+			if !isSlot[f] {
+				rest = append(rest, f)
+			}
+		}
+		if len(rest) != len(fillers)-3 {
+			return nil, fmt.Errorf("chain pack does not hold the three slot blobs")
+		}
+		fillers = rest
 	}
 	if err := blob(alt, "alt", lines("alternate", 15)); err != nil {
 		return nil, err
@@ -125,7 +218,7 @@ func buildC11Repo(f objFormat) (*c11Repo, error) {
 	if r.slot["p3g"], err = gitOut(r.dir, []byte(tag), "mktag"); err != nil {
 		return nil, err
 	}
-	for _, grp := range [][]string{{"p1a", "p1b", "p1c", "big"}, {"p2t", "p2c"}, {"p3g", "both"}} {
+	for _, grp := range [][]string{{"big"}, {"p2t", "p2c"}, {"p3g", "both"}} {
 		var ids bytes.Buffer
 		for _, s := range grp {
 			ids.WriteString(r.slot[s] + "\n")
@@ -168,8 +261,12 @@ func buildC11Repo(f objFormat) (*c11Repo, error) {
 			return nil, fmt.Errorf("git cat-file --batch-all-objects: slot %s (%s) listed=%v", s, id, ok)
 		}
 	}
-	if len(r.oracle) != len(r.slot)-1 {
-		return nil, fmt.Errorf("repository has %d objects, %d slots", len(r.oracle), len(r.slot)-1)
+	r.filler = map[string]bool{}
+	for _, f := range fillers {
+		r.filler[f] = true
+	}
+	if len(r.oracle) != len(r.slot)-1+len(fillers) {
+		return nil, fmt.Errorf("repository has %d objects, %d slots + %d fillers", len(r.oracle), len(r.slot)-1, len(fillers))
 	}
 	// offsets, from the idx git wrote
 	for s, base := range r.packOf {
@@ -324,6 +421,14 @@ func c11Step(repo *c11Repo, st *filesystem.Storage, fsys billy.Filesystem, opt c
 	want := map[string]bool{}
 	for _, s := range rd.Expect.Slots {
 		want[repo.slot[s]] = true
+	}
+	if rd.Op == "iter1" || rd.Op == "iterall" {
+		// objects without a slot are stored objects too: an iteration must yield them, identical to git's
+		for f := range repo.filler {
+			if rd.T == "any" || repo.oracle[f].typ == rd.T {
+				want[f] = true
+			}
+		}
 	}
 	notFound := func(err error) bool { return errors.Is(err, plumbing.ErrObjectNotFound) }
 	switch rd.Op {
